@@ -37,6 +37,12 @@ let run inp obs : string option * string option =
     if o = "own" then (None, None)
     else (Some (Printf.sprintf "HTTP client-streaming upload (%s, gzip body): the handler of request A received %s instead of its own body after request B started" codec
                   (if o = "other-request" then "request B's message" else o)), None)
+  | ["C13B"; variant], [o] ->
+    if o = "own" then (None, None)
+    else (Some (Printf.sprintf "gRPC unary calls with gzip frames, one after the other (first call: %s): the second call %s" variant
+                  (if o = "other-request" then "received the first call's message"
+                   else if starts "handler-saw-other:" o then "reached its handler with a message that is not its own: " ^ text_of_hex ("x" ^ String.sub o 18 (String.length o - 18))
+                   else o)), None)
   | "C13S" :: kind :: _, res :: rest ->
     if res = "ok" then (None, None)
     else
